@@ -90,6 +90,16 @@ class IdSpec:
     def describe(self):
         return self.wire()
 
+    def to_json(self):
+        """JSON form for replay payloads (inverse: from_json)"""
+        return {"kind": self.kind, "keys": [list(k) for k in self.keys], "form": self.form,
+                "table": {ft: [list(k) for k in ks] for ft, ks in self.table.items()}}
+
+    @staticmethod
+    def from_json(d):
+        return IdSpec(d.get("kind", "default"), [tuple(k) for k in d.get("keys", [])], d.get("form", "list"),
+                      {ft: [tuple(k) for k in ks] for ft, ks in d.get("table", {}).items()})
+
 
 class Cfg:
     def __init__(self, idspec=None, strategy="error", force=(), disG=False, disT=False, force_gff=False,
@@ -127,6 +137,17 @@ class Cfg:
         if transforms.ZOO[self.transform] is not None:
             kw["transform"] = transforms.ZOO[self.transform]
         return kw
+
+    def to_json(self):
+        """JSON form for replay payloads: the constructor's arguments (inverse: from_json)"""
+        return {"idspec": self.idspec.to_json(), "strategy": self.strategy, "force": list(self.force), "disG": self.disG,
+                "disT": self.disT, "force_gff": self.force_gff, "tkey": self.tkey, "gkey": self.gkey, "sub": self.sub,
+                "transform": self.transform, "keep_order": self.keep_order}
+
+    @staticmethod
+    def from_json(d):
+        d = dict(d)
+        return Cfg(idspec=IdSpec.from_json(d.pop("idspec", {})), **d)
 
     def describe(self):
         return {"id_spec": self.idspec.describe(), "merge_strategy": self.strategy, "force_merge_fields": self.force,
